@@ -391,6 +391,7 @@ pub fn scenario(id: &str) -> Option<Box<dyn Scenario>> {
         "C16" => Box::new(DiffScenario),
         "C12" => Box::new(ReclaimScenario),
         "C13" => Box::new(MultiScenario),
+        "C10" => Box::new(crate::powerloss::PowerScenario),
         "C11" => Box::new(crate::corrupt::CorruptScenario),
         "C05" => Box::new(crate::conc::ConcScenario { id: "C05" }),
         "C07" => Box::new(crate::crash::CrashScenario { mode: crate::crash::Mode::C07 }),
